@@ -5,14 +5,17 @@ import gen_evtimeout
 import gen_evwake
 import gen_locktable
 import gen_reinit
+import gen_waitempty
 import threadlib
 import vlib
 
 ID = "C11"
-IMPORTS = ["CaresProps.C11", "CaresProps.C11b"]
-LEAN_TARGETS = ["CaresProps.C11", "CaresProps.C11b"]
-GENERATORS = [gen_locktable.gen_locktable, gen_evtimeout.gen_evtimeout, gen_evwake.gen_evwake, gen_reinit.gen_reinit]
-THEOREMS = vlib.discover_theorems("CaresProps/C11.lean") + vlib.discover_theorems("CaresProps/C11b.lean") + [
+IMPORTS = ["CaresProps.C11", "CaresProps.C11b", "CaresProps.C11c"]
+LEAN_TARGETS = ["CaresProps.C11", "CaresProps.C11b", "CaresProps.C11c"]
+GENERATORS = [gen_locktable.gen_locktable, gen_evtimeout.gen_evtimeout, gen_evwake.gen_evwake, gen_reinit.gen_reinit,
+              gen_waitempty.gen_waitempty]
+THEOREMS = vlib.discover_theorems("CaresProps/C11.lean") + vlib.discover_theorems("CaresProps/C11b.lean") + \
+    vlib.discover_theorems("CaresProps/C11c.lean") + [
     "Cares.C07b.lockInv_step", "Cares.C07b.lockInv_init", "Cares.C07b.covered_step"]
 TRUSTED = [
     "Lean 4.33.0 kernel; axioms allowed: propext, Classical.choice, Quot.sound",
@@ -24,6 +27,10 @@ TRUSTED = [
     "translator tools/gen_reinit.py: the reload thread's straight-line program (readConfig/lock/flush/clearPending/unlock), whether "
     "ares_reinit() and ares_destroy() join it while holding the channel lock; conditional or helper-hidden lock calls are an "
     "extraction failure (committed copy kept, reported in the evidence), not a detected regression",
+    "translator tools/gen_waitempty.py: one iteration of the timed and of the untimed branch of the wait loop of "
+    "ares_queue_wait_empty() as functions on (status, left-by-break), loop condition / lock / return shape facts; the loop runner "
+    "of CaresProps/C11c.lean over observation sequences is hand-written; tie of the concrete behaviour: the waitempty scenario of "
+    "h_thread (a waiter notified of a momentarily empty queue must not report success)",
     "hand-written transition system lean/CaresModel/Reinit.lean (N caller threads - any N - calling ares_reinit() any number of times in any interleaving, "
     "one thread calling ares_destroy() once; every reload thread ever spawned), parametric in the generated program",
     "harness/h_thread.c (real event thread on epoll/poll/select, loopback UDP server, client threads), tools/threadlib.py",
@@ -53,8 +60,9 @@ STREAMS = [threadlib.stress_stream("asan"), threadlib.stress_stream("tsan", "thr
 
 LEVEL_TEXT = ("Proof (partial): Lean 4 theorems over a transition system of the event thread and client threads, for every "
               "interleaving: the only lock nesting is channel lock -> event mutex (no lock-order deadlock; the event thread "
-              "always releases its mutex without blocking), no wake-up is lost (C07), wait-empty reports success only with an "
-              "empty queue; deadlock-freedom of ares_reinit()/ares_destroy() against the configuration-reload thread for every "
+              "always releases its mutex without blocking), no wake-up is lost (C07); ares_queue_wait_empty, over its wait loop as "
+              "re-extracted from the source on every run and for every sequence of wake-ups (notified, spurious, timed out), reports "
+              "success only when its last check under the lock saw an empty queue, and goes round again when woken with requests outstanding; deadlock-freedom of ares_reinit()/ares_destroy() against the configuration-reload thread for every "
               "interleaving of any number of concurrent callers and reinit calls, with at most one live reload thread, over the reload thread's program "
               "as re-extracted from the source on every run (kernel-checked deadlock schedule for the variant that clears "
               "reinit_pending early); plus decide-obligations over a lock-discipline table regenerated from the source (every public "
